@@ -430,6 +430,22 @@ def check_C10(rep, tier, seed):
         for m in res["mismatch"][:3]:
             rep.violation("find on an endless source returns a value different from the first match",
                           {"failing_input_found": True, "correspondence": "K10", "input": m})
+    # under chosen schedules: which worker processed which positions once a match was published; a run
+    # that processes more than the model's early exit allows is a failing input
+    finds_ = {"find", "findix", "first", "firstix", "any", "all"}
+    _, d4, i4 = k4_part(rep, tier, seed, ["seen", "chunks", "calls"])
+    i4 = [(k, m) for (k, m) in i4 if m.get("term") in finds_]
+
+    def c10_failing(kind, m):
+        if kind != "seen":
+            return False
+        import json as _j
+        try:
+            a, b = _j.loads(m["impl"]), _j.loads(m["model"])
+        except ValueError:
+            return False
+        return sum(len(x) for x in a) > sum(len(x) for x in b)
+    report_k4(rep, "C10", [], i4, "after a match was published more source positions were processed than early exit allows", c10_failing)
     # finite sources, sequential mode: no call beyond the first match (exact call order)
     r3 = k3_part(rep, tier, seed)
     finds = {"find", "findix", "first", "firstix", "any", "all"}
